@@ -37,10 +37,10 @@ import (
 	"time"
 
 	gcommon "github.com/ethereum/go-ethereum/common"
-	gcrypto "github.com/ethereum/go-ethereum/crypto"
 	grawdb "github.com/ethereum/go-ethereum/core/rawdb"
 	gstate "github.com/ethereum/go-ethereum/core/state"
 	gvm "github.com/ethereum/go-ethereum/core/vm"
+	gcrypto "github.com/ethereum/go-ethereum/crypto"
 	gparams "github.com/ethereum/go-ethereum/params"
 	"github.com/holiman/uint256"
 	"pgregory.net/rapid"
@@ -739,12 +739,14 @@ type stateView interface {
 
 type kView struct{ st *state.StateDB }
 
-func (v kView) exist(a addr) bool          { return v.st.Exist(common.Address(a)) }
-func (v kView) balance(a addr) *big.Int    { return v.st.GetBalance(common.Address(a)) }
-func (v kView) nonce(a addr) uint64        { return v.st.GetNonce(common.Address(a)) }
-func (v kView) code(a addr) []byte         { return v.st.GetCode(common.Address(a)) }
-func (v kView) suicided(a addr) bool       { return v.st.HasSuicided(common.Address(a)) }
-func (v kView) slot(a addr, k word) word   { return word(v.st.GetState(common.Address(a), common.Hash(k))) }
+func (v kView) exist(a addr) bool       { return v.st.Exist(common.Address(a)) }
+func (v kView) balance(a addr) *big.Int { return v.st.GetBalance(common.Address(a)) }
+func (v kView) nonce(a addr) uint64     { return v.st.GetNonce(common.Address(a)) }
+func (v kView) code(a addr) []byte      { return v.st.GetCode(common.Address(a)) }
+func (v kView) suicided(a addr) bool    { return v.st.HasSuicided(common.Address(a)) }
+func (v kView) slot(a addr, k word) word {
+	return word(v.st.GetState(common.Address(a), common.Hash(k)))
+}
 func (v kView) logs() []string {
 	var out []string
 	for _, l := range v.st.Logs() {
@@ -759,12 +761,14 @@ func (v kView) logs() []string {
 
 type gView struct{ st *gstate.StateDB }
 
-func (v gView) exist(a addr) bool        { return v.st.Exist(gcommon.Address(a)) }
-func (v gView) balance(a addr) *big.Int  { return v.st.GetBalance(gcommon.Address(a)) }
-func (v gView) nonce(a addr) uint64      { return v.st.GetNonce(gcommon.Address(a)) }
-func (v gView) code(a addr) []byte       { return v.st.GetCode(gcommon.Address(a)) }
-func (v gView) suicided(a addr) bool     { return v.st.HasSuicided(gcommon.Address(a)) }
-func (v gView) slot(a addr, k word) word { return word(v.st.GetState(gcommon.Address(a), gcommon.Hash(k))) }
+func (v gView) exist(a addr) bool       { return v.st.Exist(gcommon.Address(a)) }
+func (v gView) balance(a addr) *big.Int { return v.st.GetBalance(gcommon.Address(a)) }
+func (v gView) nonce(a addr) uint64     { return v.st.GetNonce(gcommon.Address(a)) }
+func (v gView) code(a addr) []byte      { return v.st.GetCode(gcommon.Address(a)) }
+func (v gView) suicided(a addr) bool    { return v.st.HasSuicided(gcommon.Address(a)) }
+func (v gView) slot(a addr, k word) word {
+	return word(v.st.GetState(gcommon.Address(a), gcommon.Hash(k)))
+}
 func (v gView) logs() []string {
 	var out []string
 	for _, l := range v.st.Logs() {
